@@ -30,15 +30,9 @@ def main():
     if quick:
         import random
         rnd = random.Random(ck.seed + 3)
-        by = {}
-        for t in tpl:
-            by.setdefault(t[0], []).append(t)
         quota = {'single': 5, 'regex': 2, 'number': 3, 'scalar': 3, 'list': 5, 'list-all': 4, 'list-of': 5, 'list-mixed': 4,
                  'quant-short': 6, 'quant-ident': 6, 'cast-cond': 6, 'regex-rewrite': 3}
-        tpl = []
-        for fam, ts in by.items():
-            n = quota.get(fam)
-            tpl += ts if n is None or n >= len(ts) else rnd.sample(ts, n)
+        tpl = templates.thin(tpl, quota, rnd)
     ck.extra['templates'] = len(tpl)
     ck.run_units([(name, templates.render(rule)) for _, name, rule in tpl], run_unit)
     ck.finish('panic reachability on real solver MIR for every accepted template rule x optimiser output, documents symbolic')
